@@ -51,11 +51,14 @@ struct Base {
     lead: Vec<u8>,
     hdr: Vec<u8>,
     payload: Vec<u8>,
+    /// the main header records a SHA-256 payload digest (so a modified payload must be noticed)
+    has_payload_digest: bool,
 }
 
 fn base_of(bytes: &[u8]) -> Option<Base> {
     let p = walk_package(bytes).ok()?;
-    Some(Base { lead: bytes[..96].to_vec(), hdr: p.hdr.canonical_image(bytes), payload: bytes[p.payload_start..].to_vec() })
+    let has_payload_digest = p.hdr.get_strs(bytes, tag::PAYLOADDIGEST).map(|v| v.len() == 1).unwrap_or(false) && p.hdr.get_u32s(bytes, tag::PAYLOADDIGESTALGO).map(|v| v.first() == Some(&8)).unwrap_or(false) && bytes.len() > p.payload_start;
+    Some(Base { lead: bytes[..96].to_vec(), hdr: p.hdr.canonical_image(bytes), payload: bytes[p.payload_start..].to_vec(), has_payload_digest })
 }
 
 const SIG_O: [&[u8]; 3] = [b"openpgp-signature-blob-number-one", b"openpgp-signature-blob-number-two!", b"openpgp-signature-blob-number-three"];
@@ -81,7 +84,7 @@ fn shapes() -> Vec<Shape> {
         for r in legacy(SIG_RSA) {
             for d in legacy(SIG_DSA) {
                 for p in legacy(SIG_PGP) {
-                    for dg in ["none", "sha256-ok", "sha256-wrong", "sha1+md5-ok", "md5-wrong"] {
+                    for dg in ["none", "sha256-ok", "sha256-wrong", "sha1+md5-ok", "md5-wrong", "payload-wrong"] {
                         v.push(Shape { openpgp: o.clone(), openpgp_kind: ok, rsa: r.clone(), dsa: d.clone(), pgp: p.clone(), digests: dg });
                     }
                 }
@@ -91,8 +94,21 @@ fn shapes() -> Vec<Shape> {
     v
 }
 
+/// payload as it is put into the package for a shape ("payload-wrong": one byte differs from what
+/// the main header's payload digest records)
+fn payload_of(base: &Base, sh: &Shape) -> Vec<u8> {
+    let mut p = base.payload.clone();
+    if sh.digests == "payload-wrong" {
+        if let Some(last) = p.last_mut() {
+            *last ^= 0x01;
+        }
+    }
+    p
+}
+
 fn synth(base: &Base, sh: &Shape) -> Vec<u8> {
     use sha2::Digest;
+    let payload = payload_of(base, sh);
     let mut items: Vec<(u32, Val)> = Vec::new();
     match &sh.openpgp {
         None => {}
@@ -120,7 +136,7 @@ fn synth(base: &Base, sh: &Shape) -> Vec<u8> {
             items.push((tag::SIG_SHA1, Val::str(&hex::encode(sha1::Sha1::digest(&base.hdr)))));
             let mut m = md5::Md5::new();
             m.update(&base.hdr);
-            m.update(&base.payload);
+            m.update(&payload);
             let mut d = m.finalize().to_vec();
             if sh.digests == "md5-wrong" {
                 d[3] ^= 4;
@@ -131,7 +147,7 @@ fn synth(base: &Base, sh: &Shape) -> Vec<u8> {
     }
     items.sort_by_key(|(t, _)| *t);
     let (se, ss) = layout_with_region(tag::SIG_REGION, &items);
-    enc_package(&base.lead, &enc_header(&se, &ss), &base.hdr, &base.payload)
+    enc_package(&base.lead, &enc_header(&se, &ss), &base.hdr, &payload)
 }
 
 fn judge_shape(base: &Base, sh: &Shape, script: &[bool], default_answer: bool) -> (Vec<(String, String)>, usize, bool) {
@@ -148,7 +164,8 @@ fn judge_shape(base: &Base, sh: &Shape, script: &[bool], default_answer: bool) -
     let res = pkg.verify_signature(&rv);
     let calls = rv.take();
     let h = sha256_hex(&base.hdr);
-    let hp = sha256_hex(&[base.hdr.as_slice(), base.payload.as_slice()].concat());
+    let payload = payload_of(base, sh);
+    let hp = sha256_hex(&[base.hdr.as_slice(), payload.as_slice()].concat());
     let shape_class = format!(
         "openpgp={},rsa={},dsa={},pgp={}",
         sh.openpgp_kind,
@@ -163,7 +180,7 @@ fn judge_shape(base: &Base, sh: &Shape, script: &[bool], default_answer: bool) -
         if calls.iter().any(|c| !c.answer) {
             out.push(("ok-although-verifier-rejected".to_string(), format!("verify_signature returns Ok although the verifier rejected call #{} ({shape_class})", calls.iter().position(|c| !c.answer).unwrap())));
         }
-        if sh.digests.ends_with("wrong") {
+        if sh.digests.ends_with("wrong") && (sh.digests != "payload-wrong" || base.has_payload_digest) {
             out.push((format!("ok-although-digest-mismatch:{}", sh.digests), format!("verify_signature returns Ok although a recorded digest is wrong ({shape_class})")));
         }
     }
@@ -177,7 +194,7 @@ fn judge_shape(base: &Base, sh: &Shape, script: &[bool], default_answer: bool) -
         } else if c.signature == SIG_DSA {
             Some(("dsa", &h, base.hdr.len()))
         } else if c.signature == SIG_PGP {
-            Some(("pgp", &hp, base.hdr.len() + base.payload.len()))
+            Some(("pgp", &hp, base.hdr.len() + payload.len()))
         } else {
             None
         };
